@@ -234,9 +234,16 @@ pub fn faults<const N: usize, P: Pad>(ctx: &mut Ctx) {
                         if ctx.begin_case(|| {
                             format!("faults N={} T={} route={} start={} len={} act={} kind={} k=0(dry)", N, P::NAME, route_name(route), start, len, ad, kind.name())
                         }) {
+                            let reports = ctx.total_reports;
                             let (_, c) = run_one::<N, P>(ctx, route, start, len, &act, (kind, 0), key as u32, key);
                             count = c;
                             ctx.count("dry_runs", 1);
+                            if ctx.total_reports != reports {
+                                // the action already deviates with no fault injected: that is another
+                                // property's business, and a verdict about the fault would mean nothing
+                                ctx.count("families_broken_without_fault", 1);
+                                count = 0;
+                            }
                         } else if ctx.args.only.is_some() {
                             // replay of a single case: still need the count to enumerate k
                             let saved = (ctx.viol.len(), ctx.evaluations);
